@@ -235,6 +235,33 @@ def patch_case(ctx, ops, docs):
     classify(ctx, guarded(lambda: c.value.asdicts()), (jsonpath.JSONPatchError,), "asdicts", case)
     o = guarded(lambda: jsonpath.patch.apply(copy.deepcopy(ops), copy.deepcopy(docs[0])))
     classify(ctx, o, (jsonpath.JSONPatchError,), "patch.apply(fn)", case)
+    # the builder API given pointer OBJECTS built from parts or by a relative pointer
+    if isinstance(ops, list) and all(isinstance(op, dict) and isinstance(op.get("path"), str) for op in ops):
+        def obj(text, how):
+            try:
+                toks = rp.decode(text)
+            except ValueError:
+                return text
+            if how == "from_parts":
+                return jsonpath.JSONPointer.from_parts(toks, unicode_escape=False)
+            return jsonpath.JSONPointer("/zz").to("1" + rp.encode(toks), unicode_escape=False)
+        for how in ("from_parts", "relative"):
+            def build():
+                b = jsonpath.JSONPatch()
+                for op in copy.deepcopy(ops):
+                    name = op.get("op")
+                    if name in ("add", "addne", "addap", "replace", "test") and "value" in op:
+                        getattr(b, name)(obj(op["path"], how), op["value"])
+                    elif name == "remove":
+                        b.remove(obj(op["path"], how))
+                    elif name in ("move", "copy") and isinstance(op.get("from"), str):
+                        getattr(b, name)(obj(op["from"], how), obj(op["path"], how))
+                return b
+            bb = guarded(build)
+            if classify(ctx, bb, (jsonpath.JSONPatchError, jsonpath.JSONPointerError, jsonpath.RelativeJSONPointerError), "builder(pointer objects:%s)" % how, case):
+                for d in docs[:2]:
+                    o = guarded(lambda: bb.value.apply(copy.deepcopy(d)))
+                    classify(ctx, o, (jsonpath.JSONPatchError,), "builder(pointer objects:%s).apply" % how, dict(case, doc=d))
 
 
 def mutate_ops(r, ops):
